@@ -37,10 +37,88 @@ Theorem C11_match_as_path : forall actual wanted,
 Proof. exact rq_match_as_path_spec. Qed.
 Print Assumptions C11_match_as_path.
 
-Theorem C11_match_community : forall comms c,
-  rq_match_community comms c = true <-> exists x, c = Some x /\ In x comms.
+(* ... of the WHOLE path: the hops come from all segments of the AS_PATH ([rq_hops]); the filter
+   matches iff every segment is an AS_SEQUENCE and the sequences, joined, are the wanted list -
+   however the path is cut into segments *)
+Theorem C11_match_as_path_segments : forall segs wanted,
+  rq_match_as_path (rq_hops segs) wanted = true <-> exists ls, segs = map SegSeq ls /\ concat ls = wanted.
+Proof. exact rq_match_as_path_segments. Qed.
+Print Assumptions C11_match_as_path_segments.
+
+(* The community filter. The communities of a route are the members of ALL its
+   community-carrying attributes ([pa_cattrs]: COMMUNITIES, EXTENDED COMMUNITIES,
+   LARGE_COMMUNITY, IPv6 extended, in the order they stand in the route's attribute map):
+   [rq_route_comms] is their concatenation in attribute order. *)
+(* the filter's truth value is membership in that concatenation ... *)
+Theorem C11_match_community : forall cattrs c,
+  rq_match_community cattrs c = true <-> In c (rq_route_comms cattrs).
 Proof. exact rq_match_community_spec. Qed.
 Print Assumptions C11_match_community.
+
+(* ... i.e. in the union over the attributes of the community's kind: SOME attribute of that
+   kind has it as a member, whichever it is and wherever it stands *)
+Theorem C11_match_community_union : forall cattrs c,
+  rq_match_community cattrs c = true <-> exists vs, In (fst c, vs) cattrs /\ In (snd c) vs.
+Proof. exact rq_match_community_union. Qed.
+Print Assumptions C11_match_community_union.
+
+(* no attribute ends the search: the answer for a list of attributes is the disjunction of
+   the answers for its parts; a member of an attribute is found whatever precedes or follows it *)
+Theorem C11_match_community_no_early_stop : forall l1 l2 c pre k vs post v,
+  rq_match_community (l1 ++ l2) c = rq_match_community l1 c || rq_match_community l2 c /\
+  (In v vs -> rq_match_community (pre ++ (k, vs) :: post) (k, v) = true).
+Proof. exact rq_match_community_no_early_stop. Qed.
+Print Assumptions C11_match_community_no_early_stop.
+
+(* independent of the attribute order, and of everything but the set of communities *)
+Theorem C11_match_community_order_irrelevant : forall l l' c,
+  (Permutation l l' -> rq_match_community l c = rq_match_community l' c) /\
+  ((forall x, In x (rq_route_comms l) <-> In x (rq_route_comms l')) -> rq_match_community l c = rq_match_community l' c).
+Proof. exact rq_match_community_order_irrelevant. Qed.
+Print Assumptions C11_match_community_order_irrelevant.
+
+(* at the level of the request: select[community]=c keeps exactly the routes carrying c in
+   any community attribute, discard[community]=c exactly the others (any / all alike) *)
+Theorem C11_community_select_discard : forall op c at_ info,
+  (rq_pass (MkFilters op [FCommunity c] []) at_ info = true <-> In c (rq_route_comms (pa_cattrs at_))) /\
+  (rq_pass (MkFilters op [] [FCommunity c]) at_ info = true <-> ~ In c (rq_route_comms (pa_cattrs at_))).
+Proof. exact community_select_discard. Qed.
+Print Assumptions C11_community_select_discard.
+
+(* the text of the filter: a well-known community under its name (any case, '_' optional),
+   as AS:tag and as 0x.. is one and the same; large, rt:/ro: and 0x.. extended forms *)
+Theorem C11_community_spellings :
+  rq_parse_community [78;79;95;69;88;80;79;82;84] (* "NO_EXPORT" *) = Some (CStd, 4294967041) /\
+  rq_parse_community [110;111;101;120;112;111;114;116] (* "noexport" *) = Some (CStd, 4294967041) /\
+  rq_parse_community [54;53;53;51;53;58;54;53;50;56;49] (* "65535:65281" *) = Some (CStd, 4294967041) /\
+  rq_parse_community [48;120;70;70;70;70;70;70;48;49] (* "0xFFFFFF01" *) = Some (CStd, 4294967041) /\
+  rq_parse_community [66;76;65;67;75;72;79;76;69] (* "BLACKHOLE" *) = Some (CStd, 4294902426) /\
+  rq_parse_community [54;53;53;51;53;58;54;54;54] (* "65535:666" *) = Some (CStd, 4294902426) /\
+  rq_parse_community [54;53;48;48;48;58;49;58;50] (* "65000:1:2" *) = Some (CLarge, (65000 * 4294967296 + 1) * 4294967296 + 2) /\
+  rq_parse_community [114;116;58;54;53;48;48;48;58;49;48;48] (* "rt:65000:100" *) = Some (CExt, rq_ext_as2 2 65000 100) /\
+  rq_parse_community [114;111;58;52;50;48;48;48;48;48;48;48;49;58;55] (* "ro:4200000001:7" *) = Some (CExt, rq_ext_as4 3 4200000001 7) /\
+  rq_parse_community [48;120;48;48;48;50;70;68;69;56;48;48;48;48;48;48;54;52] (* "0x0002FDE800000064" *) = Some (CExt, rq_ext_as2 2 65000 100).
+Proof. exact community_spellings. Qed.
+Print Assumptions C11_community_spellings.
+
+(* non-vacuity: COMMUNITIES [NO_EXPORT; 65000:100] + LARGE_COMMUNITY [65000:1:2] + EXTENDED
+   COMMUNITIES [rt:65000:100] on one route; the text of a member of EACH attribute selects
+   it, in this and in the reversed attribute order; what it does not carry does not *)
+Example C11_community_example :
+  let sel (cattrs : list rq_cattr) (txt : list N) :=
+    match rq_parse_community txt with
+    | Some c => Some (rq_pass (MkFilters OpAny [FCommunity c] []) (MkAttrs [] cattrs) None)
+    | None => None
+    end in
+  let texts := [[110;111;95;101;120;112;111;114;116] (* "no_export" *); [54;53;48;48;48;58;49;48;48] (* "65000:100" *);
+                [54;53;48;48;48;58;49;58;50] (* "65000:1:2" *); [114;116;58;54;53;48;48;48;58;49;48;48] (* "rt:65000:100" *)] in
+  map (sel w_cattrs) texts = [Some true; Some true; Some true; Some true] /\
+  map (sel (rev w_cattrs)) texts = [Some true; Some true; Some true; Some true] /\
+  sel w_cattrs [54;53;48;48;48;58;49;58;51] (* "65000:1:3" *) = Some false /\
+  sel w_cattrs [114;111;58;54;53;48;48;48;58;49;48;48] (* "ro:65000:100" *) = Some false /\
+  sel w_cattrs [48;120;70;68;69;56;48;48;54;52] (* "0xFDE80064" = 65000:100 *) = Some true /\
+  sel [(CExt, [4259840100])] [54;53;48;48;48;58;49;48;48] (* "65000:100" *) = Some false.
+Proof. exact community_example. Qed.
 
 Theorem C11_match_peer_as : forall info a,
   rq_match_peer_as info a = true <-> info = Some (Some a).
